@@ -65,7 +65,8 @@ def run(tier, seed):
                       "domains x array_adaptive parameter settings; every concrete execution explored; the scalar receiving a load "
                       "must lie in its reported interval/constraints at every block boundary, and no reachable state is bottom. "
                       "non-trivial = (program, run) with a non-top non-bottom post-invariant")
-    ck.assumptions += ["reads of never-written cells, misaligned or out-of-range accesses are outside the model (execution not followed)",
+    ck.assumptions += ["every array is initialised (at least partly) in the entry block: arrays whose content is unknown at their first use are not generated (DESIGN.md 9.5a)",
+                       "reads of never-written cells, misaligned or out-of-range accesses are outside the model (execution not followed)",
                        "one uniform element size per program (documented word-level assumption)"]
     return ck.finish()
 
